@@ -228,6 +228,7 @@ pub struct World {
     /// socket, the client has already put more in (conn, bytes injected so far). This is the one
     /// place where a client acts *inside* a library call: at the server's receive system calls.
     pub firehose: Vec<(usize, u64)>,
+    pub foreign_fds: Vec<Fd>,
     pub faults_fired: u64,
 }
 
@@ -287,6 +288,7 @@ impl World {
             fd_reuse: 0,
             ever_used_fds: Vec::new(),
             firehose: Vec::new(),
+            foreign_fds: Vec::new(),
             faults_fired: 0,
         }
     }
@@ -1230,12 +1232,20 @@ impl World {
     // ------------------------------------------------------------- observation
 
     /// open descriptors of the simulated server process
+    /// descriptors of the simulated process, without those marked as belonging to something else in
+    /// the process (a second server set up before the one under observation)
     pub fn server_fds(&self) -> Vec<(Fd, FdObj)> {
         self.fds
             .iter()
             .enumerate()
             .filter_map(|(i, o)| o.map(|o| (i as Fd, o)))
+            .filter(|(fd, _)| !self.foreign_fds.contains(fd))
             .collect()
+    }
+
+    /// everything open right now belongs to another component of the process
+    pub fn mark_foreign(&mut self) {
+        self.foreign_fds = self.fds.iter().enumerate().filter_map(|(i, o)| o.map(|_| i as Fd)).collect();
     }
 
     pub fn take_log(&mut self) -> Vec<LogEntry> {
